@@ -70,7 +70,7 @@ func propSpecs() map[string]*PropSpec {
 	}
 	tmo := func(tier string) time.Duration {
 		if tier == "thorough" {
-			return 150 * time.Second
+			return 100 * time.Second
 		}
 		return 60 * time.Second
 	}
@@ -97,10 +97,12 @@ func propSpecs() map[string]*PropSpec {
 			return !in.Tags["userEqual"]
 		},
 		SkipKind: func(in Inst, kind, tier string) bool {
-			// three-value transitivity over map-containing types needs minutes per query: thorough tier only
-			return tier == "quick" && kind == "trans" && in.Tags["map"]
+			// three-value transitivity over map-containing types needs minutes per query (sorted keys of three maps
+			// under independent iteration orders): outside both tiers; a thorough calibration run spent its whole
+			// hour on them
+			return kind == "trans" && in.Tags["map"]
 		},
-		Outside: []string{"NaN", "cyclic values", "maps keyed by complex numbers", "reflect/unsafe path for unexported fields of imported structs beyond the one fixture harness/static/reflpath", "values larger than the bounds"}})
+		Outside: []string{"NaN", "cyclic values", "maps keyed by complex numbers", "three-value transitivity over types that contain a map", "reflect/unsafe path for unexported fields of imported structs beyond the one fixture harness/static/reflpath", "values larger than the bounds"}})
 	add(&PropSpec{ID: "C04", Extra: reflPath("C04"), Title: "Derived Hash respects Equal", Gen: genC04, AbstractMul: true,
 		SkipKind: func(in Inst, kind, tier string) bool {
 			// the two-independent-values form over nested containers of string-bearing structs needs minutes;
